@@ -42,7 +42,7 @@ type FileObs struct {
 }
 
 type History struct {
-	RateSeen map[float64]bool // every BloomFalsePositiveRate an engine of this history was configured with
+	RateSeen       map[float64]bool            // every BloomFalsePositiveRate an engine of this history was configured with
 	ExtCompression bs.CompressionType          // compression the next external file is written with ("" = none)
 	CompSeen       map[bs.CompressionType]bool // every compression an engine of this history was configured with
 	PadBytes       int                         // when > 0 every generated row gets a compressible filler of up to this many bytes
@@ -145,6 +145,18 @@ func (h *History) genHistRow(r Rng) *StoredRow {
 				nc = genNum(r)
 			}
 			row[k] = nc.Go
+		}
+	}
+	if r.Chance(0.25) {
+		// the same value under a second (and third) field: one token, several field::token entries
+		for k, v := range row {
+			if sv, ok := v.(string); ok && sv != "" && k != "p" {
+				row["alt"] = sv
+				if r.Chance(0.5) {
+					row["n2"] = map[string]any{"again": sv}
+				}
+				break
+			}
 		}
 	}
 	if h.PadBytes > 0 {
